@@ -64,6 +64,7 @@ pub fn probes(_tier: &str) -> Vec<String> {
     "fault.adversary.kb_stale_sd_hash",
     "fault.adversary.strip_kb",
     "fault.adversary.kb_prefix_or_extension_value",
+    "fault.adversary.kb_kid_names_foreign_reference",
     "fault.adversary.forged_issuer_claim",
     "fault.clock.boundary",
     "probe.cred.accepted",
@@ -243,14 +244,37 @@ pub fn run(_params: &Params) {
   let _ = issuer.gen_method("sign", Some(1));
   let n_holders = 1 + ctx::choose(2);
   let mut holders: Vec<Party> = Vec::new();
+  let mut foreign_refs: Vec<Option<String>> = Vec::new();
   for i in 0..n_holders {
     let mut h = Party::new("holder", ctx::choose(2) == 0, i);
     h.skew = ctx::range(-5, 5);
     clock.enter(h.skew);
     let _ = h.gen_method("kb", Some(0));
+    let mut fref: Option<String> = None;
     if ctx::choose(2) == 0 {
       let _ = h.gen_method("alt", None);
+      if ctx::chance(1, 3) {
+        // A document its owner assembled elsewhere: a relationship REFERS to a method of another DID whose fragment
+        // equals the holder's own general-purpose #alt (which is attached to no relationship). The reference does not
+        // name key material of this document.
+        let reference = "did:sim:adversary0#alt".to_owned();
+        let mut dj = serde_json::to_value(h.doc.core()).unwrap();
+        let key = ["authentication", "assertionMethod"][ctx::choose(2)];
+        let mut arr = dj.get(key).and_then(|a| a.as_array().cloned()).unwrap_or_default();
+        let at = ctx::choose(arr.len() + 1);
+        arr.insert(at, Value::from(reference.clone()));
+        dj[key] = Value::Array(arr);
+        if let Ok(core) = identity_document::document::CoreDocument::from_json_value(dj) {
+          h.doc = match &h.doc {
+            AnyDoc::Core(_) => AnyDoc::Core(core),
+            AnyDoc::Iota(_) => AnyDoc::Iota(identity_iota_core::IotaDocument::from(core)),
+          };
+          ctx::stat("probe.foreign_reference_sharing_own_fragment");
+          fref = Some(reference);
+        }
+      }
     }
+    foreign_refs.push(fref);
     holders.push(h);
   }
   let mut adv = Party::new("adversary", false, 0);
@@ -423,7 +447,7 @@ pub fn run(_params: &Params) {
     let mut kb_present = true;
     let n_moves = ctx::weighted(&[5, 4, 1]);
     for _ in 0..n_moves {
-      match ctx::choose(11) {
+      match ctx::choose(12) {
         0 if !disclosures.is_empty() => {
           disclosures.remove(ctx::choose(disclosures.len()));
           ctx::stat("fault.adversary.drop_disclosure");
@@ -501,6 +525,19 @@ pub fn run(_params: &Params) {
             kb = k;
             ctx::stat("fault.adversary.kb_prefix_or_extension_value");
             moves.push("kb_prefix_value");
+          }
+        }
+        10 | 11 if foreign_refs[hi].is_some() => {
+          // a Byzantine holder signs with its general-purpose #alt key but names the foreign method its document
+          // merely refers to: that id is not key material of the holder document
+          let o = JwsSignatureOptions::default()
+            .typ(KeyBindingJwtClaims::KB_JWT_HEADER_TYP.to_owned())
+            .kid(foreign_refs[hi].clone().unwrap());
+          // (queried by full id: the bare fragment is ambiguous in this document)
+          if let Ok(k) = sign_raw(holder, &format!("{}#alt", holder.did), kb_payload.as_bytes(), &o) {
+            kb = k;
+            ctx::stat("fault.adversary.kb_kid_names_foreign_reference");
+            moves.push("kb_kid_foreign_ref");
           }
         }
         _ => {}
